@@ -7,7 +7,12 @@ observation is compared with the pure-Python model interpreter and pairwise acro
 from __future__ import annotations
 
 import itertools
+import os
 from typing import Any
+
+# vgi_rpc.shm reads this once at import: route even small batches through the shm side channel so the
+# shm-pipe configuration really differs from the plain pipe (set before anything imports vgi_rpc).
+os.environ.setdefault("VGI_RPC_SHM_MIN_BATCH_BYTES", "1")
 
 from lib import programs, transports
 from lib.harness import Check, Outcome
